@@ -230,6 +230,16 @@ type CompatibilityError struct {
 }
 
 func (c CompatibilityError) WithContext(context string) CompatibilityError {
+	var expected *diagnostic.Diagnostic
+	if c.ExpectedDiagnostic != nil {
+		expected = &diagnostic.Diagnostic{
+			Level:   c.ExpectedDiagnostic.Level,
+			Message: fmt.Sprintf("%s: %s", context, c.ExpectedDiagnostic.Message),
+			Notes:   c.ExpectedDiagnostic.Notes,
+			Span:    c.ExpectedDiagnostic.Span,
+		}
+	}
+
 	return CompatibilityError{
 		GotDiagnostic: diagnostic.Diagnostic{
 			Level:   c.GotDiagnostic.Level,
@@ -237,12 +247,7 @@ func (c CompatibilityError) WithContext(context string) CompatibilityError {
 			Notes:   c.GotDiagnostic.Notes,
 			Span:    c.GotDiagnostic.Span,
 		},
-		ExpectedDiagnostic: &diagnostic.Diagnostic{
-			Level:   c.ExpectedDiagnostic.Level,
-			Message: fmt.Sprintf("%s: %s", context, c.ExpectedDiagnostic.Message),
-			Notes:   c.ExpectedDiagnostic.Notes,
-			Span:    c.ExpectedDiagnostic.Span,
-		},
+		ExpectedDiagnostic: expected,
 	}
 }
 
@@ -473,7 +478,9 @@ func (self *Analyzer) TypeCheck(got ast.Type, expected ast.Type, options TypeChe
 		if err := self.TypeCheck(gotFn.ReturnType, expectedFn.ReturnType, options); err != nil {
 			// TODO: include better error message
 			err.GotDiagnostic.Message = fmt.Sprintf("Regarding function's return type: %s", err.GotDiagnostic.Message)
-			err.ExpectedDiagnostic.Message = fmt.Sprintf("Regarding function's return type: %s", err.ExpectedDiagnostic.Message)
+			if err.ExpectedDiagnostic != nil {
+				err.ExpectedDiagnostic.Message = fmt.Sprintf("Regarding function's return type: %s", err.ExpectedDiagnostic.Message)
+			}
 			return err
 		}
 
